@@ -156,6 +156,7 @@ def handle (op : String) (args : List PyVal) : Option (List PyVal) :=
     let a : Option RowGlue.NewArg := match arg with
       | .list [.str "t", .list items] => some (.tuple items)
       | .list [.str "d", .bool e, .dict es] => some (.dict e es)
+      | .list [.str "m", .dict es] => some (.mapping es)
       | _ => none
     match fs, a with
     | some f, some x =>
